@@ -89,15 +89,19 @@ void run_case(ByteSource& s, CaseInfo& ci) {
       hist += fmt("Evolve(%.6g)%s ", dt, eff ? "" : "[no numerics]");
       if (!adaptive) { nsteps = fixed_steps(stepper, std::max(dt, 1e-3)); S->Set_NumSteps(nsteps); }
       if (!adaptive) T->Set_NumSteps(nsteps);
+      // GSL rejects a *fixed* step whose error estimate exceeds the tolerances; with fixed stepping the accuracy comes from the
+      // step count, so the tolerances are kept out of the way for the duration of the call
+      if (!adaptive) { S->Set_rel_error(1e-6); S->Set_abs_error(1e-6); T->Set_rel_error(1e-6); T->Set_abs_error(1e-6); }
+      struct RestoreTol { TSolver *a, *b; double r, ab; bool on; ~RestoreTol() { if (on) { a->Set_rel_error(r); a->Set_abs_error(ab); b->Set_rel_error(r); b->Set_abs_error(ab); } } };
       double tprev = S->Get_t();
-      try { S->Evolve(dt); T->Evolve(dt); }
+      try { RestoreTol rt{S.get(), T.get(), cur_rel, cur_abs, !adaptive}; S->Evolve(dt); T->Evolve(dt); }
       catch (const std::exception& e) { throw Fail(fmt("C10|Evolve|throws|%s-%s|dt%s0", STEPPER_NAMES[stepper], adaptive ? "adaptive" : "fixed", dt == 0 ? "=" : ">"), fmt("exception '%s' :: %s", e.what(), hist.c_str())); }
       for (int ix = 0; ix < P->nx; ix++) {
         for (int ir = 0; ir < P->nr; ir++) for (int k = 0; k < P->d * P->d; k++) CHECK(bit_equal(S->rho(ix, ir)[k], T->rho(ix, ir)[k]), "C10|differs-from-never-moved-twin", "node %d matrix %d slot %d: %.17g vs twin %.17g :: %s", ix, ir, k, S->rho(ix, ir)[k], T->rho(ix, ir)[k], hist.c_str());
         for (int is = 0; is < P->ns; is++) CHECK(bit_equal(S->scalar(ix, is), T->scalar(ix, is)), "C10|scalar-differs-from-never-moved-twin", "node %d scalar %d: %.17g vs twin %.17g :: %s", ix, is, S->scalar(ix, is), T->scalar(ix, is), hist.c_str());
       }
       CHECK(bit_equal(S->Get_t(), T->Get_t()), "C10|clock-differs-from-never-moved-twin", "%.17g vs %.17g :: %s", S->Get_t(), T->Get_t(), hist.c_str());
-      bool loose = cur_rel > 1e-9 || cur_abs > 1e-9;
+      bool loose = adaptive && (cur_rel > 1e-9 || cur_abs > 1e-9);
       // the model clock (t_ini + sum dt) is compared with Get_t separately; the propagation interval is the one the library
       // itself reports, because fixed stepping accumulates n roundings in t
       double t0 = tprev; m.clock = m.clock + dt; m.evolves++;
